@@ -169,9 +169,12 @@ example : aliasName 404 = "NotFoundError".toList ∧ aliasName 501 = "HttpNotImp
     bundled transport    : never returns, status + response attached                        (full, `never_returns_non2xx_bundled`)
     bundled transport    : 4xx ↦ `ClientError`, 5xx ↦ `ServerError`                         (full, `bundled_class_by_range`)
     pass-through, declared 4xx/5xx : the status-specific alias, whose base is by range      (full, `passthrough_declared_error_class`)
-    pass-through, undeclared status : the class of its range (F15 repaired)                 (partial: no `default` response with content,
-                                                                                             `passthrough_undeclared_class_by_range_partial`)
-    pass-through, `default` response with content : raises at all                           ✗ (`default_with_content_returns_for_error_status_counterexample`)
+    pass-through, undeclared status : the class of its range, also under a `default`
+                                      response with content (F15, F40 repaired)             (full, `passthrough_undeclared_class_by_range`)
+    either transport, every three-digit status outside 200-299, declared or not :
+                                      raises, status + response attached, `ClientError` iff
+                                      4xx, `ServerError` iff 5xx                            (full, `non2xx_raises_class_by_range`)
+    either transport, every operation : never returns a value for such a status             (full, `never_returns_non2xx`)
 -/
 section behaviour
 open Pog.GenCode
@@ -319,86 +322,173 @@ theorem passthrough_undeclared_former_witness :
 
 /-- Pass-through transport, a status for which the operation declares no numeric response: the `case _:` arm raises the
     class of the status' range with the status and the response - "Default error" when a `default` response is declared,
-    "Unhandled status code" otherwise.
-    PARTIAL: `hdef` excludes the `default` response WITH content (F40: that arm returns). -/
-theorem passthrough_undeclared_class_by_range_partial (op : Op) (r : Reply) (hm : moduleOk op = true)
+    "Unhandled status code" otherwise.  The only undeclared statuses that do not raise are the 2xx ones under a `default`
+    response with content (`h2`; F40 repaired: before, that arm returned for EVERY status, and this theorem carried the
+    hypothesis `defaultAction op.responses ≠ .retStrategy`). -/
+theorem passthrough_undeclared_class_by_range (op : Op) (r : Reply) (hm : moduleOk op = true)
     (hu : ∀ x ∈ op.responses, x.key.code? ≠ some r.status)
-    (hdef : defaultAction op.responses ≠ .retStrategy) :
+    (h2 : ¬ (200 ≤ r.status ∧ r.status < 300) ∨ defaultAction op.responses ≠ .retDefault) :
     handle .passthrough op r = .raised (rangeClass r.status) r.status true
       (if op.responses.any (fun x => x.key.isDefault) then .defaultArm else .unhandledArm) := by
-  have hnone : (arms op.responses).find? (fun a => a.1 == r.status) = none := by
-    apply find_arm_none
-    intro a ha has
-    rcases mem_arms ha with ⟨p, hp, _⟩ | ⟨y, hy, hya⟩
-    · have hsp := processedPrimary_spec hp
-      have := hu p hsp.1
-      rw [hsp.2.1, has] at this
-      exact this rfl
-    · have hyk := otherArm_code (n := a.1) (a := a.2) hya
-      have := hu y (otherResponses_sub hy)
-      rw [hyk, has] at this
-      exact this rfl
   unfold handle
   simp only [hm, Bool.not_true, Bool.false_eq_true, if_false]
-  unfold selectAction
-  rw [hnone]
-  simp only
-  unfold defaultAction at hdef ⊢
-  cases hf : op.responses.find? (fun r => r.key.isDefault) with
-  | none =>
-    have hany : op.responses.any (fun x => x.key.isDefault) = false := by
-      rw [List.any_eq_false]
-      intro x hx
-      have := List.find?_eq_none.mp hf x hx
-      simpa using this
-    simp [hany, runAction]
-  | some d =>
-    have hany : op.responses.any (fun x => x.key.isDefault) = true := by
-      rw [List.any_eq_true]
-      exact ⟨d, List.mem_of_find?_eq_some hf, List.find?_some (p := fun r : Resp => r.key.isDefault) hf⟩
-    rw [hf] at hdef
-    simp only at hdef
-    split at hdef
-    · exact absurd rfl hdef
-    · next hc => simp [hany, hc, runAction]
-
-/-- The hypotheses of `passthrough_undeclared_class_by_range_partial` are satisfiable, with and without a `default` response. -/
-example :
-    let op : Op := ⟨"GET".toList, [.lit "/a".toList], [], none, [⟨.num 200, []⟩, ⟨.num 404, []⟩, ⟨.default, []⟩]⟩
-    moduleOk op = true ∧ (∀ x ∈ op.responses, x.key.code? ≠ some 503) ∧ defaultAction op.responses ≠ .retStrategy ∧
-    handle .passthrough op ⟨503, none⟩ = .raised .serverError 503 true .defaultArm ∧
-    moduleOk exDeclared = true ∧ (∀ x ∈ exDeclared.responses, x.key.code? ≠ some 409) ∧
-    defaultAction exDeclared.responses ≠ .retStrategy := by
-  decide +kernel
+  rw [select_undeclared hu]
+  rcases defaultAction_cases op.responses with ⟨hany, hd | hd⟩ | ⟨hany, hd⟩
+  · rcases h2 with h2 | h2
+    · rw [hd, hany]
+      simp [runAction, h2]
+    · exact absurd hd h2
+  · rw [hd, hany]
+    simp [runAction]
+  · rw [hd, hany]
+    simp [runAction]
 
 /-- An operation with a `default` response that has content. -/
 def exDefaultContent : Op :=
   ⟨"GET".toList, [.lit "/pets".toList], [], none,
    [⟨.num 200, [⟨mtJson, .model "Pet".toList⟩]⟩, ⟨.default, [⟨mtJson, .model "Problem".toList⟩]⟩]⟩
 
-/-- ✗ C06 ("never returns a value"): a declared `default` response WITH content makes the `case _:` arm
-    `return` through the primary strategy — with a pass-through transport a 500 (or 404, or 302) reply is
-    RETURNED, parsed as the success type `Pet`. -/
-theorem default_with_content_returns_for_error_status_counterexample :
-    moduleOk exDefaultContent = true ∧
-    handle .passthrough exDefaultContent ⟨500, none⟩ = .returned (.structure (.model "Pet".toList)) ∧
-    handle .passthrough exDefaultContent ⟨404, none⟩ = .returned (.structure (.model "Pet".toList)) ∧
-    handle .passthrough exDefaultContent ⟨302, none⟩ = .returned (.structure (.model "Pet".toList)) := by
+/-- The hypotheses of `passthrough_undeclared_class_by_range` are satisfiable: without a `default` response, with one
+    without content, and with one WITH content (the class F40 used to exclude). -/
+example :
+    let op : Op := ⟨"GET".toList, [.lit "/a".toList], [], none, [⟨.num 200, []⟩, ⟨.num 404, []⟩, ⟨.default, []⟩]⟩
+    moduleOk op = true ∧ (∀ x ∈ op.responses, x.key.code? ≠ some 503) ∧
+    handle .passthrough op ⟨503, none⟩ = .raised .serverError 503 true .defaultArm ∧
+    moduleOk exDeclared = true ∧ (∀ x ∈ exDeclared.responses, x.key.code? ≠ some 409) ∧
+    moduleOk exDefaultContent = true ∧ (∀ x ∈ exDefaultContent.responses, x.key.code? ≠ some 500) ∧
+    defaultAction exDefaultContent.responses = .retDefault := by
   decide +kernel
 
-/-- The general shape: whenever the `case _:` arm is the strategy return, EVERY status that matches no
-    declared numeric arm is returned (or dies with the missing-import `NameError`), never raised as `HTTPError`. -/
-theorem default_with_content_never_raises_http (op : Op) (r : Reply) (hm : moduleOk op = true)
-    (hd : defaultAction op.responses = .retStrategy)
-    (hu : ∀ a ∈ arms op.responses, a.1 ≠ r.status) :
-    ∀ cls st w why, handle .passthrough op r ≠ .raised cls st w why := by
-  intro cls st w why
+/-- The former witness of F40 (a declared `default` response WITH content made the `case _:` arm `return` through the
+    primary strategy: with a pass-through transport a 500, 404 or 302 reply was RETURNED, parsed as the success type
+    `Pet`): these statuses now raise by range, "Default error"; an undeclared 2xx status (201) is still returned. -/
+theorem default_with_content_former_witness :
+    moduleOk exDefaultContent = true ∧
+    handle .passthrough exDefaultContent ⟨500, none⟩ = .raised .serverError 500 true .defaultArm ∧
+    handle .passthrough exDefaultContent ⟨404, none⟩ = .raised .clientError 404 true .defaultArm ∧
+    handle .passthrough exDefaultContent ⟨302, none⟩ = .raised .httpError 302 true .defaultArm ∧
+    handle .passthrough exDefaultContent ⟨201, none⟩ = .returned (.structure (.model "Pet".toList)) := by
+  decide +kernel
+
+/-- What is left of the returning `default` arm: when the `case _:` arm is the guarded strategy return, a 2xx status that
+    matches no declared numeric arm is returned through the primary strategy (never the missing-import `NameError`) -
+    with either transport. -/
+theorem default_with_content_returns_undeclared_2xx (t : TransportKind) (op : Op) (r : Reply) (hm : moduleOk op = true)
+    (hd : defaultAction op.responses = .retDefault)
+    (hu : ∀ x ∈ op.responses, x.key.code? ≠ some r.status)
+    (h2 : 200 ≤ r.status ∧ r.status < 300) :
+    handle t op r = .returned (strategyRet (resolveStrategy op.responses) r) := by
+  have hb : ¬ (r.status < 200 ∨ r.status ≥ 300) := by omega
   unfold handle
-  simp only [hm, Bool.not_true, Bool.false_eq_true, if_false]
-  unfold selectAction
-  rw [find_arm_none hu, hd]
-  simp only [runAction, returnOf]
-  split <;> intro h <;> cases h
+  cases t <;>
+    simp only [hm, Bool.not_true, Bool.false_eq_true, if_false, hb, select_undeclared hu, hd, runAction, h2, and_self,
+      if_true, returnOf_strategy_of_retDefault r hd]
+
+example : defaultAction exDefaultContent.responses = .retDefault ∧
+    (∀ x ∈ exDefaultContent.responses, x.key.code? ≠ some 201) := by decide +kernel
+
+/-- `isinstance(e, ClientError)` / `isinstance(e, ServerError)` for the status-specific alias of a DECLARED status that
+    has one: exactly by range. -/
+theorem alias_class_by_range (s : Nat) (h : (aliasBase s).isSome = true) :
+    (ExcCls.alias s).isClient = decide (400 ≤ s ∧ s < 500) ∧ (ExcCls.alias s).isServer = decide (500 ≤ s ∧ s < 600) := by
+  obtain ⟨h1, h2, h3⟩ := alias_base_by_range_literal s
+  by_cases hc : 400 ≤ s ∧ s < 500
+  · have hs : ¬ (500 ≤ s ∧ s < 600) := by omega
+    simp [ExcCls.isClient, ExcCls.isServer, h1 hc, hc, hs]
+  · by_cases hs : 500 ≤ s ∧ s < 600
+    · simp [ExcCls.isClient, ExcCls.isServer, h2 hs, hc, hs]
+    · rw [h3 (by omega)] at h
+      cases h
+
+/-- The same for the classes the `case _:` arms and the bundled transport choose. -/
+theorem rangeClass_class_by_range (s : Nat) :
+    (rangeClass s).isClient = decide (400 ≤ s ∧ s < 500) ∧ (rangeClass s).isServer = decide (500 ≤ s ∧ s < 600) := by
+  by_cases hc : 400 ≤ s ∧ s < 500
+  · have hs : ¬ (500 ≤ s ∧ s < 600) := by omega
+    simp [rangeClass, ExcCls.isClient, ExcCls.isServer, hc, hs]
+  · by_cases hs : 500 ≤ s ∧ s < 600
+    · simp [rangeClass, ExcCls.isClient, ExcCls.isServer, hc, hs]
+    · simp [rangeClass, ExcCls.isClient, ExcCls.isServer, hc, hs]
+
+/-- Pass-through transport, the emitted `match` alone: a status that the GENERATOR does not treat as 2xx (its decimal
+    string does not start with `2`: `hns`) and that is not in 200-299 raises - declared (its own arm: the alias class or,
+    for 1xx/3xx, the base class) or not (the `case _:` arm) - with the status and the response attached; the exception is
+    a `ClientError` exactly for 400-499 and a `ServerError` exactly for 500-599. -/
+theorem passthrough_non2xx_raises_class_by_range (op : Op) (r : Reply) (hm : moduleOk op = true)
+    (hns : (StatusKey.num r.status).starts2 = false) (h2 : ¬ (200 ≤ r.status ∧ r.status < 300)) :
+    ∃ cls why, handle .passthrough op r = .raised cls r.status true why ∧
+      cls.isClient = decide (400 ≤ r.status ∧ r.status < 500) ∧
+      cls.isServer = decide (500 ≤ r.status ∧ r.status < 600) := by
+  by_cases hd : ∃ x ∈ op.responses, x.key = .num r.status
+  · have hsel := select_declared_non2 op.responses r.status hns hd
+    by_cases hab : (aliasBase r.status).isSome = true
+    · refine ⟨.alias r.status, .aliasArm, ?_, alias_class_by_range r.status hab⟩
+      unfold handle
+      simp only [hm, Bool.not_true, Bool.false_eq_true, if_false, hsel, hab, if_true, runAction]
+    · have hnone : aliasBase r.status = none := by
+        cases h : aliasBase r.status with
+        | none => rfl
+        | some b => rw [h] at hab; exact absurd rfl hab
+      have hout : r.status < 400 ∨ 600 ≤ r.status := by
+        obtain ⟨h1, h2', _⟩ := alias_base_by_range_literal r.status
+        by_cases hc : 400 ≤ r.status ∧ r.status < 500
+        · rw [h1 hc] at hnone; cases hnone
+        · by_cases hs : 500 ≤ r.status ∧ r.status < 600
+          · rw [h2' hs] at hnone; cases hnone
+          · omega
+      have hc : ¬ (400 ≤ r.status ∧ r.status < 500) := by omega
+      have hs : ¬ (500 ≤ r.status ∧ r.status < 600) := by omega
+      refine ⟨.httpError, .unhandledArm, ?_, ?_, ?_⟩
+      · unfold handle
+        simp only [hm, Bool.not_true, Bool.false_eq_true, if_false, hsel, hab, runAction]
+      · simp [ExcCls.isClient, hc]
+      · simp [ExcCls.isServer, hs]
+  · have hu : ∀ x ∈ op.responses, x.key.code? ≠ some r.status := by
+      intro x hx hk
+      apply hd
+      refine ⟨x, hx, ?_⟩
+      cases hkey : x.key with
+      | num n => rw [hkey] at hk; simp only [StatusKey.code?, Option.some.injEq] at hk; rw [hk]
+      | default => rw [hkey] at hk; cases hk
+      | other s => rw [hkey] at hk; cases hk
+    exact ⟨_, _, passthrough_undeclared_class_by_range op r hm hu (Or.inl h2), rangeClass_class_by_range r.status⟩
+
+/-- **C06, behavioural half, in full**: for every operation whose module imports, either transport and every three-digit
+    status outside 200-299 - declared or not, `default` response or not - the call RAISES an exception of the package
+    carrying that status code and the response; it is a `ClientError` exactly for 400-499 and a `ServerError` exactly for
+    500-599 (F14, F15, F40 repaired).  "Three-digit" is the domain of HTTP status codes; the generator recognises a 2xx key
+    by its first character, see the example below. -/
+theorem non2xx_raises_class_by_range (t : TransportKind) (op : Op) (r : Reply) (hm : moduleOk op = true)
+    (h3 : 100 ≤ r.status ∧ r.status < 1000) (h2 : ¬ (200 ≤ r.status ∧ r.status < 300)) :
+    ∃ cls why, handle t op r = .raised cls r.status true why ∧
+      cls.isClient = decide (400 ≤ r.status ∧ r.status < 500) ∧
+      cls.isServer = decide (500 ≤ r.status ∧ r.status < 600) := by
+  cases t with
+  | passthrough => exact passthrough_non2xx_raises_class_by_range op r hm (not_starts2_of_3digits r.status h3 h2) h2
+  | bundled =>
+    refine ⟨bundledClass r.status, .transport, (never_returns_non2xx_bundled op r h2).2 hm, ?_⟩
+    rw [← rangeClass_eq_bundledClass]
+    exact rangeClass_class_by_range r.status
+
+/-- … and for EVERY operation (importable or not) such a status never ends in a returned value. -/
+theorem never_returns_non2xx (t : TransportKind) (op : Op) (r : Reply)
+    (h3 : 100 ≤ r.status ∧ r.status < 1000) (h2 : ¬ (200 ≤ r.status ∧ r.status < 300)) :
+    ∀ k, handle t op r ≠ .returned k := by
+  intro k
+  by_cases hm : moduleOk op = true
+  · obtain ⟨cls, why, h, _⟩ := non2xx_raises_class_by_range t op r hm h3 h2
+    rw [h]
+    intro h'
+    cases h'
+  · unfold handle
+    simp [hm]
+
+/-- The hypotheses are satisfiable - and the three-digit bound is needed: a response declared under the key `2000` is a
+    "2xx" response for the generator (the key starts with `2`), so a status 2000, which no HTTP server can send, is returned. -/
+example : moduleOk exDefaultContent = true ∧
+    handle .passthrough exDefaultContent ⟨999, none⟩ = .raised .httpError 999 true .defaultArm ∧
+    handle .passthrough ⟨"GET".toList, [.lit "/a".toList], [], none, [⟨.num 2000, []⟩]⟩ ⟨2000, none⟩ = .returned .none := by
+  decide +kernel
 
 end behaviour
 
